@@ -64,7 +64,7 @@ CHECKS = {
         "design_ref": "DESIGN.md §5 C04",
     },
     "C05": {
-        "level": "model_checking", "shards": 14, "deadline_quick": 110, "deadline_thorough": 1800,
+        "level": "model_checking", "shards": 16, "deadline_quick": 110, "deadline_thorough": 1800,
         "engine": "E-WORLD",
         "technique": "explicit-state model checking of the implementation: BFS by replay around one real node (floodsub, gossipsub) with two observer peers; a quiescence leaf (open gates, let retries fire) judges wire view and ListPeers at every explored state",
         "rule": WORLD_RULE + "; at every state the leaf event 'quiesce' is applied",
